@@ -451,7 +451,7 @@ pub fn suite_corrupt(dir: &str, seed: u64, thorough: bool, st: &mut Stats) {
 pub fn suite_hostile(dir: &str, seed: u64, thorough: bool, st: &mut Stats) {
     let mut rng = Rng::new(seed ^ 0xa3);
     let out = SuiteOut::new(dir, "hostile");
-    bomb_case(st);
+    bomb_cases(st, thorough);
     let n = if thorough { 4000 } else { 500 };
     for i in 0..n {
         let mut d = gen_dict(&mut rng);
@@ -486,41 +486,52 @@ fn vm_hwm_kib() -> u64 {
 
 /// C15: a tiny payload that decompresses to far more than the declared chunk size must be rejected without
 /// buffering the expansion (peak memory of this process is the observable)
-pub fn bomb_case(st: &mut Stats) {
+pub fn bomb_case(st: &mut Stats) { bomb_cases(st, false); }
+
+/// decompression bombs: a small payload of every codec that expands to 192 MiB, stored for a chunk whose declared
+/// size is below / above the decoders' output block sizes; each cloned in a child process (peak memory)
+pub fn bomb_cases(st: &mut Stats, thorough: bool) {
     let big = vec![0u8; 192 << 20];
-    let payload = brotli(1, &big);
+    let payloads: Vec<(u32, Vec<u8>)> = [3u32, 2, 1].iter().map(|t| (*t, crate::archive::codec_compress(*t, 1, &big))).collect();
     drop(big);
-    let fake_src = vec![7u8; 100];
-    let d = Dict {
-        version: b"x".to_vec(), checksum: b2(&fake_src), total: 100,
-        params: Some([0, 0, 100, 0, 64, 2]), comp: Some([3, 1]), order: vec![0],
-        descs: vec![Desc { checksum: b2(&fake_src), archive_size: payload.len() as u32, archive_offset: 0, source_size: 100 }],
-        meta: Default::default(),
-    };
-    let mut rng = Rng::new(1);
-    let mut bytes = make_header(&d.encode_free(&mut rng, false), false, None);
-    bytes.extend_from_slice(&payload);
-    // run in a child process so that the peak memory is that of the clone alone
-    let dir = std::env::var("VERIF_SCRATCH").unwrap_or_else(|_| "/verif/build/scratch".to_string());
-    let _ = std::fs::create_dir_all(&dir);
-    let path = format!("{}/bomb-{}.cba", dir, std::process::id());
-    std::fs::write(&path, &bytes).unwrap();
-    drop(bytes);
-    let out = std::process::Command::new(std::env::current_exe().unwrap()).args(["bombchild", &path]).output();
-    let _ = std::fs::remove_file(&path);
-    st.evaluations += 1;
-    st.oracle_checks += 1;
-    st.count("hostile/decompression-bomb");
-    let text = out.map(|o| String::from_utf8_lossy(&o.stdout).to_string()).unwrap_or_default();
-    let mut ok = false;
-    let mut hwm = 0u64;
-    for l in text.lines() {
-        if let Some(v) = l.strip_prefix("BOMB-RESULT ") { ok = v.starts_with("ok"); }
-        if let Some(v) = l.strip_prefix("BOMB-HWM-KIB ") { hwm = v.trim().parse().unwrap_or(0); }
-    }
-    if ok { st.violation("C04", "a decompression bomb was cloned successfully", "bomb"); }
-    if hwm == 0 || hwm > 96 * 1024 {
-        st.violation("C15", &format!("a {} byte payload declared as a 100 byte chunk made the process use {} MiB (child output: {:?})", payload.len(), hwm / 1024, text.lines().last()), "bomb");
+    let declared: &[u32] = if thorough { &[100, 5000, 65536, 1 << 20, 8 << 20] } else { &[100, 65536, 1 << 20] };
+    for (t, payload) in &payloads {
+        for &decl in declared {
+            let fake_src = vec![7u8; decl as usize];
+            let d = Dict {
+                version: b"x".to_vec(), checksum: b2(&fake_src), total: decl as u64,
+                params: Some([0, 0, decl, 0, 64, 2]), comp: Some([*t, 1]), order: vec![0],
+                descs: vec![Desc { checksum: b2(&fake_src), archive_size: payload.len() as u32, archive_offset: 0, source_size: decl }],
+                meta: Default::default(),
+            };
+            let mut rng = Rng::new(1);
+            let mut bytes = make_header(&d.encode_free(&mut rng, false), false, None);
+            bytes.extend_from_slice(payload);
+            // run in a child process so that the peak memory is that of the clone alone
+            let dir = std::env::var("VERIF_SCRATCH").unwrap_or_else(|_| "/verif/build/scratch".to_string());
+            let _ = std::fs::create_dir_all(&dir);
+            let path = format!("{}/bomb-{}-{}-{}.cba", dir, std::process::id(), t, decl);
+            std::fs::write(&path, &bytes).unwrap();
+            drop(bytes);
+            let out = std::process::Command::new(std::env::current_exe().unwrap()).args(["bombchild", &path]).output();
+            let _ = std::fs::remove_file(&path);
+            st.evaluations += 1;
+            st.oracle_checks += 1;
+            st.count(&format!("hostile/decompression-bomb/codec={}/declared={}", t, decl));
+            let text = out.map(|o| String::from_utf8_lossy(&o.stdout).to_string()).unwrap_or_default();
+            let mut ok = false;
+            let mut hwm = 0u64;
+            for l in text.lines() {
+                if let Some(v) = l.strip_prefix("BOMB-RESULT ") { ok = v.starts_with("ok"); }
+                if let Some(v) = l.strip_prefix("BOMB-HWM-KIB ") { hwm = v.trim().parse().unwrap_or(0); }
+            }
+            if ok { st.violation("C04", "a decompression bomb was cloned successfully", "bomb"); }
+            // payload + declared size + decoder state, far below the 192 MiB the payload expands to
+            let bound = 64 * 1024 + 2 * (decl as u64 / 1024) + 2 * (payload.len() as u64 / 1024);
+            if hwm == 0 || hwm > bound {
+                st.violation("C15", &format!("a {} byte payload (codec {}) declared as a {} byte chunk made the process use {} MiB (child output: {:?})", payload.len(), t, decl, hwm / 1024, text.lines().last()), "bomb");
+            }
+        }
     }
 }
 
